@@ -405,18 +405,24 @@ fn pos_program(cases: &[C15Case]) -> (String, Vec<u32>) {
         let vars = i % 3 == 2;
         let text = with_vars(vars, || print_behavior(&c.sentences, c.bracket_single));
         if vars {
-            src += &format!("fn m_{i}() -> {ty} {{ let delay: f32 = 8.0; let duration: f32 = 4.0; let _ = (delay, duration); timeline!(P {text}) }}\n");
+            // the caller's variables are parameters: the same invocation is evaluated twice with
+            // different values (a timeline must reflect the values of the evaluation that built it)
+            src += &format!("fn m_{i}(delay: f32, duration: f32) -> {ty} {{ let _ = (delay, duration); timeline!(P {text}) }}\n");
         } else {
             src += &format!("fn m_{i}() -> {ty} {{ timeline!(P {text}) }}\n");
         }
         line += 1;
     }
-    src += "\nfn main() {\n    let descs: Vec<Vec<TlDesc>> = serde_json::from_str(&std::fs::read_to_string(std::env::args().nth(1).unwrap()).unwrap()).unwrap();\n    let mut i = 0;\n";
-    src += "    macro_rules! go { ($f:ident) => {{ let r = std::panic::catch_unwind(|| compare_timeline(&$f(), &descs[i])); let line = match r { Ok(Ok(v)) => serde_json::json!({\"case\": i, \"ok\": true, \"info\": v}), Ok(Err(e)) => serde_json::json!({\"case\": i, \"ok\": false, \"detail\": e}), Err(_) => serde_json::json!({\"case\": i, \"ok\": false, \"detail\": \"panic\"}) }; println!(\"{}\", line); i += 1; }} }\n";
+    src += "\nfn main() {\n    let descs: Vec<Vec<TlDesc>> = serde_json::from_str(&std::fs::read_to_string(std::env::args().nth(1).unwrap()).unwrap()).unwrap();\n    let descs2: Vec<Vec<TlDesc>> = serde_json::from_str(&std::fs::read_to_string(std::env::args().nth(2).unwrap()).unwrap()).unwrap();\n";
+    src += "    macro_rules! go { ($i:expr, $e:expr, $d:expr, $second:expr) => {{ let r = std::panic::catch_unwind(|| compare_timeline(&$e, &$d[$i])); let line = match r { Ok(Ok(v)) => serde_json::json!({\"case\": $i, \"second\": $second, \"ok\": true, \"info\": v}), Ok(Err(e)) => serde_json::json!({\"case\": $i, \"second\": $second, \"ok\": false, \"detail\": e}), Err(_) => serde_json::json!({\"case\": $i, \"second\": $second, \"ok\": false, \"detail\": \"panic\"}) }; println!(\"{}\", line); }} }\n";
     for i in 0..cases.len() {
-        src += &format!("    go!(m_{i});\n");
+        if i % 3 == 2 {
+            src += &format!("    go!({i}, m_{i}(8.0, 4.0), descs, false);\n    go!({i}, m_{i}(16.0, 2.0), descs2, true);\n");
+        } else {
+            src += &format!("    go!({i}, m_{i}(), descs, false);\n");
+        }
     }
-    src += "    let _ = i;\n}\n";
+    src += "}\n";
     (src, lines)
 }
 
@@ -626,6 +632,24 @@ pub fn run_positive(cases: &[C15Case], name: &str, slot: usize) -> Vec<Outcome> 
     let descs: Vec<Vec<TlDesc>> = cases.iter().map(|c| c.sentences.iter().map(|s| reading(s, None)).collect()).collect();
     let descs_path = cr.dir.join("descs.json");
     std::fs::write(&descs_path, serde_json::to_string(&descs).unwrap()).unwrap();
+    // second evaluation of the variable-valued cases: delay 8 -> 16 doubles `a`, duration 4 -> 2 halves `b`
+    let descs2: Vec<Vec<TlDesc>> = descs
+        .iter()
+        .map(|ds| {
+            ds.iter()
+                .map(|d| {
+                    let mut d = d.clone();
+                    for k in d.kfs.iter_mut() {
+                        k.a = k.a.map(|v| v * 2.0);
+                        k.b = k.b.map(|v| v / 2.0);
+                    }
+                    d
+                })
+                .collect()
+        })
+        .collect();
+    let descs2_path = cr.dir.join("descs2.json");
+    std::fs::write(&descs2_path, serde_json::to_string(&descs2).unwrap()).unwrap();
     let (ok, diags, stderr) = build(&cr, "pos", slot);
     if !ok {
         // map errors back to cases
@@ -648,12 +672,14 @@ pub fn run_positive(cases: &[C15Case], name: &str, slot: usize) -> Vec<Outcome> 
         }
         return out;
     }
-    let (code, stdout, stderr) = run_bin(&cr, "pos", slot, &[descs_path.to_str().unwrap()]);
+    let (code, stdout, stderr) = run_bin(&cr, "pos", slot, &[descs_path.to_str().unwrap(), descs2_path.to_str().unwrap()]);
     let mut out = vec![];
     let mut seen = 0;
     for l in stdout.lines() {
         let Ok(v) = serde_json::from_str::<serde_json::Value>(l) else { continue };
-        seen += 1;
+        if v["second"] != true {
+            seen += 1;
+        }
         if v["ok"] != true {
             let i = v["case"].as_u64().unwrap_or(0) as usize;
             out.push(Outcome::Violation {
